@@ -182,6 +182,18 @@ func (g *PG) Expr(t Ty, d int) *canon.Node {
 			f := Pick(r, fs).name
 			return li(sy("do"), g.tr(li(sy(f), li(sy("do"), li(sy("def"), sy(f), li(sy("fn"), li(sy("zz1")), canon.Ke("redefined"))), canon.In(r.Intn(5))))), g.tr(li(sy(f), canon.In(1))), g.Expr(t, d+1))
 		}
+	case 12:
+		if g.o.GoErrors {
+			// a builtin registered as a plain Go function value (the way the library registers eval) fails or panics —
+			// also with a Go runtime error — inside a try body: the nearest handler gets it, finally still runs
+			g.stat("raw-builtin-failure-in-try")
+			f := Pick(r, []string{"raw-panic-runtime!", "raw-panic-runtime!", "raw-panic-err!", "raw-fail!"})
+			tryF := li(sy("try"), li(sy("do"), g.mark(), li(sy(f)), g.mark()), li(sy("catch"), sy("ez"), li(sy("do"), g.mark(), canon.Ke("raw-caught"))))
+			if r.Intn(2) == 0 {
+				tryF = li(sy("try"), li(sy("do"), g.mark(), li(sy("try"), li(sy(f)), li(sy("finally"), g.mark())), g.mark()), li(sy("catch"), sy("ez"), li(sy("do"), g.mark(), canon.Ke("raw-caught"))))
+			}
+			return li(sy("do"), g.tr(tryF), g.Expr(t, d+1))
+		}
 	case 11:
 		// one let, one scope: a name bound twice in the same let is re-bound in place, so a closure made between the two
 		// bindings sees the second value, and a closure may call a name bound later in the same let
